@@ -153,6 +153,14 @@ class ErrAnalysis:
             if ("." + self.contract[(f.id, c)]) in d:
                 self.used_exceptions.add(("contract", f.id, c))
                 return ("call", "local", ("asm::assemble::{closure#0}",), True, "asm::assemble (output is None only after a reported failure)")
+        if c.endswith("iter::Iterator::collect") and t["args"] and is_result_unit(f.local_ty(t["dest"]["l"]) or ""):
+            # `iter.map(|x| fallible(x)).collect::<Result<Vec<_>, ()>>()`: Err exactly when the closure answered Err
+            from mir import closure_of_origin
+            o = peel(f.origin_op(t["args"][0]))
+            if o[0] == "call" and (o[1].get("callee") or "").endswith("iter::Iterator::map") and len(o[1]["args"]) >= 2:
+                cid = closure_of_origin(f.origin_op(o[1]["args"][1]))
+                if cid and self.prog.fn(cid) is not None:
+                    return ("call", "local", (cid,), True, name + " over " + cid)
         if f.id in self.closure_reported and kind == "extern":
             # e.g. Iterator::fold(Ok(()), closure): the closure is the only Err source
             cl = self.closure_reported[f.id]
